@@ -1,5 +1,475 @@
-//! Conformance harness for specification-growth module g13 (see /verif/DESIGN.md 12.6).
+//! Conformance harness for specification-growth module G13 (array variables
+//! and multi-valued parameters), see spec/ArrayVars.tla.
+//!
+//! spec -> impl:  `replay` takes the lines TLC printed from spec/Gen_ArrayVars.tla
+//!                (family "w": state, word, allowed outcomes; family "s": state,
+//!                witness path, fan of commands with allowed results), runs them on
+//!                the real shell and reports every disagreement;
+//! impl -> spec:  `random` records what the real shell does on seeded random
+//!                command sequences; spec/Trace_ArrayVars.tla judges every step;
+//! `one`          re-executes one recorded case (replay of a violation).
+mod ast;
+mod run;
+
+use ast::Render;
+use rand::SeedableRng;
+use rand::rngs::StdRng;
+use run::{Item, Job};
+use serde_json::{Value, json};
+use std::collections::BTreeMap;
+use std::io::{BufRead, Write};
+use std::sync::Mutex;
+use std::sync::atomic::{AtomicUsize, Ordering};
+use yvcommon::util;
+
+/// Mirror of AgreesR of ArrayVars.tla (plus: the message of ${n?word} must be shown).
+fn agrees(cmd: &Value, obs: &Value, exp: &Value, stderr: &str) -> bool {
+    let c = cmd["c"].as_str().unwrap();
+    match exp["k"].as_str().unwrap() {
+        "ok" => {
+            obs["k"] == "ok"
+                && obs["st"] == exp["st"]
+                && (!matches!(c, "probe" | "for" | "print") || obs["f"] == exp["f"])
+                && (!matches!(c, "case" | "here" | "redir") || obs["j"] == exp["j"])
+                && (!matches!(c, "env" | "tmpenv" | "print") || obs["x"] == exp["x"])
+        }
+        "fail" => obs["k"] == "fail" && obs["st"] == exp["st"],
+        "skip" => true,
+        kind => {
+            (obs["k"] == "exit" || (matches!(c, "here" | "redir") && obs["k"] == "fail" && obs["st"] == exp["st"]))
+                && (kind != "vacant" || exp["j"].as_str().unwrap_or("").is_empty() || stderr.contains(exp["j"].as_str().unwrap()))
+        }
+    }
+}
+
+fn threads(args: &[String]) -> usize {
+    util::opt_usize(args, "--threads", 8)
+}
+
+fn word_cmd(c: &str, w: &Value) -> Value {
+    match c {
+        "probe" | "for" | "set" => json!({"c": c, "ws": [w]}),
+        "arr" => json!({"c": "arr", "n": "c", "ws": [w]}),
+        "sca" => json!({"c": "sca", "n": "c", "w": w}),
+        _ => json!({"c": c, "w": w}),
+    }
+}
+
+/// What the outcome `o` of a word (family "w") means for the command that
+/// uses the word in context `c` (ContextsAgree of Gen_ArrayVars.tla checks
+/// this derivation against Step).
+fn derive(c: &str, o: &Value) -> Value {
+    let k = o["k"].as_str().unwrap();
+    if k != "ok" {
+        return json!({"k": k, "f": [], "j": o["j"], "st": o["st"], "x": []});
+    }
+    let mut st = o["st"].clone();
+    match c {
+        "set" => st["pos"] = o["f"].clone(),
+        "arr" => st["c"] = json!({"k": "a", "s": "", "e": o["f"], "ro": st["c"]["ro"], "ex": st["c"]["ex"]}),
+        "sca" => st["c"] = json!({"k": "s", "s": o["j"], "e": [], "ro": st["c"]["ro"], "ex": st["c"]["ex"]}),
+        _ => {}
+    }
+    json!({"k": "ok", "f": o["f"], "j": o["j"], "st": st, "x": []})
+}
+
+fn safe_name(j: &str) -> bool {
+    !j.is_empty() && j != "." && j != ".." && j.chars().all(|c| "xyzvwpq: -*?".contains(c))
+}
+
+fn first_ok_j(outs: &[Value]) -> Option<String> {
+    outs.iter().find(|o| o["k"] == "ok").map(|o| o["j"].as_str().unwrap().to_string())
+}
+
+#[derive(Default)]
+struct Summary {
+    lines: usize,
+    cases: usize,
+    skipped: usize,
+    ambiguous: usize,
+    errors_expected: usize,
+    mismatches: usize,
+    runs: usize,
+    tags: BTreeMap<String, usize>,
+    samples: Vec<Value>,
+}
+
+struct Prepared {
+    line: Value,
+    /// commands of the items (owned), expectations per item
+    cmds: Vec<Value>,
+    exps: Vec<Vec<Value>>,
+}
+
+fn prepare(line: Value, every_ctx: bool, salt: usize) -> Prepared {
+    let mut cmds = vec![];
+    let mut exps = vec![];
+    if line["fam"] == "w" {
+        let outs = line["out"].as_array().unwrap();
+        let w = &line["w"];
+        let mut ctxs: Vec<&str> = vec!["probe", "for", "set", "arr", "sca", "case"];
+        if line["here"].as_bool().unwrap() {
+            ctxs.push("here");
+        }
+        if outs.iter().all(|o| o["k"] != "ok" || safe_name(o["j"].as_str().unwrap())) {
+            ctxs.push("redir");
+        }
+        // one j per case command: skip the context if the allowed outcomes differ in j
+        let js: Vec<&str> = outs.iter().filter(|o| o["k"] == "ok").map(|o| o["j"].as_str().unwrap()).collect();
+        if js.windows(2).any(|p| p[0] != p[1]) {
+            ctxs.retain(|c| *c != "case");
+        }
+        for (i, c) in ctxs.iter().enumerate() {
+            // `probe` and `arr` always; the others all (every_ctx) or two per line in rotation
+            if !every_ctx && i >= 1 && *c != "arr" && (i + salt) % 3 != 0 {
+                continue;
+            }
+            cmds.push(word_cmd(c, w));
+            exps.push(outs.iter().map(|o| derive(c, o)).collect());
+        }
+    } else {
+        for e in line["fan"].as_array().unwrap() {
+            cmds.push(e["cmd"].clone());
+            exps.push(e["out"].as_array().unwrap().clone());
+        }
+    }
+    Prepared { line, cmds, exps }
+}
+
+fn state_str(st: &Value) -> String {
+    let var = |v: &Value| -> String {
+        let mut s = match v["k"].as_str().unwrap() {
+            "u" => "unset".to_string(),
+            "s" => format!("{:?}", v["s"].as_str().unwrap()),
+            _ => format!("({})", v["e"].as_array().unwrap().iter().map(|e| format!("{:?}", e.as_str().unwrap())).collect::<Vec<_>>().join(" ")),
+        };
+        if v["ro"].as_bool().unwrap() {
+            s.push_str(" ro");
+        }
+        if v["ex"].as_bool().unwrap() {
+            s.push_str(" exported");
+        }
+        s
+    };
+    format!(
+        "a={} b={} c={} IFS={} pos={}{}",
+        var(&st["a"]),
+        var(&st["b"]),
+        var(&st["c"]),
+        var(&st["IFS"]),
+        st["pos"],
+        if st["nounset"].as_bool().unwrap() { " nounset" } else { "" }
+    )
+}
+
+/// spec -> impl
+fn replay(args: &[String]) -> i32 {
+    let input = util::open_in(args);
+    let chunk = util::opt_usize(args, "--chunk", 24);
+    let every_ctx = args.iter().any(|a| a == "--all-contexts");
+    let mut lines: Vec<String> = vec![];
+    for line in input.lines() {
+        let line = line.expect("read");
+        if !line.trim().is_empty() {
+            lines.push(line);
+        }
+    }
+    // family s lines are big (a fan each): one per run; family w lines: `chunk` per run;
+    // family p lines: one shell per line, run at top level with `portable` on
+    let mut jobs: Vec<Vec<usize>> = vec![];
+    let mut cur: Vec<usize> = vec![];
+    for (i, l) in lines.iter().enumerate() {
+        if l.contains("\"fam\":\"s\"") || l.contains("\"fam\":\"p\"") {
+            jobs.push(vec![i]);
+        } else {
+            cur.push(i);
+            if cur.len() >= chunk {
+                jobs.push(std::mem::take(&mut cur));
+            }
+        }
+    }
+    if !cur.is_empty() {
+        jobs.push(cur);
+    }
+    let next = AtomicUsize::new(0);
+    let out: Mutex<Vec<String>> = Mutex::new(vec![]);
+    let sum = Mutex::new(Summary::default());
+    let failed: Mutex<Option<String>> = Mutex::new(None);
+    std::thread::scope(|s| {
+        for _ in 0..threads(args) {
+            s.spawn(|| {
+                loop {
+                    let j = next.fetch_add(1, Ordering::SeqCst);
+                    if j >= jobs.len() || failed.lock().unwrap().is_some() {
+                        break;
+                    }
+                    let render = Render { multibyte_e: true, raw_params: j % 2 == 0 };
+                    let prepared: Vec<Prepared> = jobs[j]
+                        .iter()
+                        .map(|&i| prepare(serde_json::from_str(&lines[i]).expect("json"), every_ctx, i))
+                        .collect();
+                    let mut local = Summary::default();
+                    if prepared.len() == 1 && prepared[0].line["fam"] == "p" {
+                        let line = &prepared[0].line;
+                        let render = Render { multibyte_e: false, raw_params: j % 2 == 0 };
+                        let cmd = &line["cmd"];
+                        let exps = line["out"].as_array().unwrap();
+                        let steps = match run::run_sequence_with(&render, &line["st0"], "set -o portable", std::slice::from_ref(cmd)) {
+                            Ok(s) => s,
+                            Err(e) => {
+                                *failed.lock().unwrap() = Some(e);
+                                return;
+                            }
+                        };
+                        let obs = &steps[0].1;
+                        let kind = exps[0]["k"].as_str().unwrap();
+                        let c = cmd["c"].as_str().unwrap();
+                        let mut s = sum.lock().unwrap();
+                        s.lines += 1;
+                        s.runs += 1;
+                        if exps.iter().all(|e| e["k"] == "skip") {
+                            s.skipped += 1;
+                            continue;
+                        }
+                        s.cases += 1;
+                        *s.tags.entry(format!("portable/{c}/{kind}")).or_insert(0) += 1;
+                        let good = if kind == "syntax" { obs["k"] == "exit" } else { exps.iter().any(|e| agrees(cmd, obs, e, "")) };
+                        if !good {
+                            s.mismatches += 1;
+                            drop(s);
+                            out.lock().unwrap().push(
+                                json!({"fam": "p", "what": "case", "st0": line["st0"], "path": [], "cmd": cmd, "exp": exps, "obs": obs,
+                                       "text": format!("set -o portable; {}", render.command(cmd, 0, None)),
+                                       "state": state_str(&line["st0"]), "stderr": ""})
+                                .to_string(),
+                            );
+                        }
+                        continue;
+                    }
+                    let mut todo: Vec<&Prepared> = vec![];
+                    for p in &prepared {
+                        local.lines += 1;
+                        todo.push(p);
+                    }
+                    // text each `case` subject is matched against: the j of the first allowed ok outcome
+                    let pats: Vec<Vec<String>> = todo
+                        .iter()
+                        .map(|p| p.exps.iter().map(|e| first_ok_j(e).unwrap_or_else(|| "x".to_string())).collect())
+                        .collect();
+                    let jobs_rs: Vec<Job> = todo
+                        .iter()
+                        .zip(pats.iter())
+                        .map(|(p, pt)| Job {
+                            st0: if p.line["fam"] == "w" { &p.line["st"] } else { &p.line["st0"] },
+                            path: if p.line["fam"] == "w" { vec![] } else { p.line["path"].as_array().unwrap().iter().collect() },
+                            items: p
+                                .cmds
+                                .iter()
+                                .zip(pt.iter())
+                                .map(|(c, pat)| Item { cmd: c, case_pat: if c["c"] == "case" { Some(pat.clone()) } else { None } })
+                                .collect(),
+                        })
+                        .collect();
+                    let res = match run::run_jobs(&render, &jobs_rs) {
+                        Ok(r) => r,
+                        Err(e) => {
+                            *failed.lock().unwrap() = Some(e);
+                            return;
+                        }
+                    };
+                    local.runs += 1;
+                    let mut mism = vec![];
+                    for (p, jo) in todo.iter().zip(res.iter()) {
+                        let fam = p.line["fam"].as_str().unwrap();
+                        if fam == "s" {
+                            // the witness must lead to the state the model is in
+                            if jo.path_state.as_ref() != Some(&p.line["st"]) {
+                                mism.push(json!({"fam": fam, "what": "witness", "st0": p.line["st0"], "path": p.line["path"],
+                                                 "exp": [{"k": "ok", "st": p.line["st"]}],
+                                                 "obs": {"st": jo.path_state},
+                                                 "text": p.line["path"].as_array().unwrap().iter().enumerate().map(|(i, c)| render.command(c, i, None)).collect::<Vec<_>>().join("; "),
+                                                 "state": state_str(&p.line["st0"])}));
+                                continue;
+                            }
+                        }
+                        for (k, cmd) in p.cmds.iter().enumerate() {
+                            let exps = &p.exps[k];
+                            let obs = &jo.obs[k];
+                            let c = cmd["c"].as_str().unwrap();
+                            if exps.iter().all(|e| e["k"] == "skip") {
+                                local.skipped += 1;
+                                *local.tags.entry(format!("skip/{c}")).or_insert(0) += 1;
+                                continue;
+                            }
+                            local.cases += 1;
+                            if exps.len() > 1 {
+                                local.ambiguous += 1;
+                            }
+                            let kind = exps[0]["k"].as_str().unwrap();
+                            if !matches!(kind, "ok" | "fail") {
+                                local.errors_expected += 1;
+                            }
+                            *local.tags.entry(format!("{c}/{kind}")).or_insert(0) += 1;
+                            let good = exps.iter().any(|e| agrees(cmd, obs, e, &jo.stderr[k]));
+                            let text = render.command(cmd, 0, first_ok_j(exps).as_deref());
+                            let st_before = if fam == "w" { &p.line["st"] } else { &p.line["st"] };
+                            if !good {
+                                mism.push(json!({"fam": fam, "what": "case", "st0": if fam == "w" { &p.line["st"] } else { &p.line["st0"] },
+                                                 "path": if fam == "w" { json!([]) } else { p.line["path"].clone() },
+                                                 "cmd": cmd, "exp": exps, "obs": obs, "text": text, "state": state_str(st_before),
+                                                 "stderr": jo.stderr[k].chars().take(300).collect::<String>()}));
+                            } else if local.samples.len() < 2 && (local.cases % 211 == 7) {
+                                local.samples.push(json!({"state": state_str(st_before), "command": text, "observed": {"k": obs["k"], "f": obs["f"], "j": obs["j"]}}));
+                            }
+                        }
+                    }
+                    local.mismatches = mism.len();
+                    {
+                        let mut s = sum.lock().unwrap();
+                        s.lines += local.lines;
+                        s.cases += local.cases;
+                        s.skipped += local.skipped;
+                        s.ambiguous += local.ambiguous;
+                        s.errors_expected += local.errors_expected;
+                        s.mismatches += local.mismatches;
+                        s.runs += local.runs;
+                        for (k, v) in local.tags {
+                            *s.tags.entry(k).or_insert(0) += v;
+                        }
+                        if s.samples.len() < 8 {
+                            s.samples.extend(local.samples);
+                        }
+                    }
+                    if !mism.is_empty() {
+                        let mut w = out.lock().unwrap();
+                        for m in mism {
+                            w.push(m.to_string());
+                        }
+                    }
+                }
+            });
+        }
+    });
+    if let Some(e) = failed.into_inner().unwrap() {
+        eprintln!("yv-g13 replay: tool error: {e}");
+        return 2;
+    }
+    let mut w = util::open_out(args);
+    for l in out.into_inner().unwrap() {
+        writeln!(w, "{l}").unwrap();
+    }
+    w.flush().unwrap();
+    let s = sum.into_inner().unwrap();
+    println!(
+        "{}",
+        json!({"lines": s.lines, "cases": s.cases, "skipped": s.skipped, "ambiguous": s.ambiguous,
+               "errors_expected": s.errors_expected, "mismatches": s.mismatches, "runs": s.runs,
+               "tags": s.tags, "samples": s.samples})
+    );
+    0
+}
+
+/// impl -> spec: records {st, cmd, obs, text} (one per executed command).
+fn random(args: &[String]) -> i32 {
+    let n = util::opt_usize(args, "--n", 1000);
+    let len = util::opt_usize(args, "--len", 6);
+    let seed = util::seed();
+    let next = AtomicUsize::new(0);
+    let out: Mutex<Vec<String>> = Mutex::new(vec![]);
+    let failed: Mutex<Option<String>> = Mutex::new(None);
+    let total = AtomicUsize::new(0);
+    std::thread::scope(|s| {
+        for _ in 0..threads(args) {
+            s.spawn(|| {
+                loop {
+                    let j = next.fetch_add(1, Ordering::SeqCst);
+                    if j >= n || failed.lock().unwrap().is_some() {
+                        break;
+                    }
+                    let mut rng = StdRng::seed_from_u64(seed.wrapping_mul(1_000_003).wrapping_add(j as u64));
+                    let st0 = ast::random_state(&mut rng);
+                    let cmds: Vec<Value> = (0..len).map(|_| ast::random_command(&mut rng)).collect();
+                    let render = Render { multibyte_e: false, raw_params: j % 2 == 0 };
+                    match run::run_sequence(&render, &st0, &cmds) {
+                        Ok(steps) => {
+                            let mut recs = vec![];
+                            for (i, (pre, obs)) in steps.iter().enumerate() {
+                                recs.push(json!({"seq": j, "i": i, "st": pre, "cmd": cmds[i], "obs": obs,
+                                                 "text": render.command(&cmds[i], i, None)}).to_string());
+                            }
+                            total.fetch_add(recs.len(), Ordering::SeqCst);
+                            out.lock().unwrap().extend(recs);
+                        }
+                        Err(e) => {
+                            *failed.lock().unwrap() = Some(e);
+                            return;
+                        }
+                    }
+                }
+            });
+        }
+    });
+    if let Some(e) = failed.into_inner().unwrap() {
+        eprintln!("yv-g13 random: tool error: {e}");
+        return 2;
+    }
+    let mut w = util::open_out(args);
+    for l in out.into_inner().unwrap() {
+        writeln!(w, "{l}").unwrap();
+    }
+    w.flush().unwrap();
+    println!("{}", json!({"records": total.load(Ordering::SeqCst), "sequences": n}));
+    0
+}
+
+/// Re-executes one recorded case {st0, path, cmd} as a sequence in the main
+/// shell and writes the step records (judged by Trace_ArrayVars).
+fn one(args: &[String]) -> i32 {
+    let input = util::open_in(args);
+    let mut out = util::open_out(args);
+    for line in input.lines() {
+        let line = line.expect("read");
+        if line.trim().is_empty() {
+            continue;
+        }
+        let v: Value = serde_json::from_str(&line).expect("json");
+        let mut cmds: Vec<Value> = v["path"].as_array().cloned().unwrap_or_default();
+        if v.get("cmd").is_some() && !v["cmd"].is_null() {
+            cmds.push(v["cmd"].clone());
+        }
+        let render = Render { multibyte_e: false, raw_params: true };
+        match run::run_sequence(&render, &v["st0"], &cmds) {
+            Ok(steps) => {
+                for (i, (pre, obs)) in steps.iter().enumerate() {
+                    writeln!(out, "{}", json!({"seq": 0, "i": i, "st": pre, "cmd": cmds[i], "obs": obs, "text": render.command(&cmds[i], i, None)})).unwrap();
+                }
+            }
+            Err(e) => {
+                eprintln!("tool error: {e}");
+                return 2;
+            }
+        }
+    }
+    out.flush().unwrap();
+    0
+}
+
 fn main() {
-    eprintln!("yv-g13: not implemented yet");
-    std::process::exit(2);
+    util::quiet_panics();
+    let args: Vec<String> = std::env::args().collect();
+    if args.len() < 2 {
+        eprintln!("usage: yv-g13 <replay|random|one> [--in F] [--out F] ...");
+        std::process::exit(2);
+    }
+    let rest = &args[2..];
+    let code = match args[1].as_str() {
+        "replay" => replay(rest),
+        "random" => random(rest),
+        "one" => one(rest),
+        other => {
+            eprintln!("unknown subcommand {other}");
+            2
+        }
+    };
+    std::process::exit(code);
 }
